@@ -473,9 +473,32 @@ def _cross_grid() -> list[dict[str, Any]]:
     return cases
 
 
+def run_evicted_while_queued(case: dict[str, Any]) -> Outcome:
+    """C25 under concurrency (the deterministic scheduler and world of C26, lib/c26_world.py): a token gives access
+    "until the session is closed, evicted or expired" — a request that was queued on the session's lock while the
+    session was evicted (reaper, expiry at lookup, shutdown) gets the lock after the session is gone and must be
+    answered session_lost, not dispatched."""
+    from lib import c26_world as W26
+
+    out = Outcome()
+    run = W26.execute(case)
+    late = W26.late_lock_dispatches(run)
+    for w in late[:1]:
+        out.fail("dispatched_after_eviction/queued_on_session_lock", w)
+    evicted = any(e[0] == "unregistered" for e in run.log)
+    lost = any(r[2] == "session_lost" for r in run.responses)
+    out.nontrivial = evicted and (lost or bool(late))
+    out.label("evicted" if evicted else "no_eviction", "session_lost_seen" if lost else "no_session_lost",
+              f"threads={len(run.res.threads)}")
+    return out
+
+
 def main(chk: Check) -> None:
     chk.enumerate("cross_worker_twins", _cross_grid(), run_history)
     chk.explore("history", histories, run_history, quick=800, thorough=24000)
+    from checks import c26 as _c26  # generators of concurrent sticky-session cases (schedules, reaper, clock, admin)
+
+    chk.explore("evicted_while_queued", _c26._cases("lines"), run_evicted_while_queued, quick=500, thorough=12000)
     chk.explore("focused", focused, run_focused, quick=300, thorough=8000)
     complete = chk.enumerate("bitflips_truncations", _grid(), run_focused)
     chk.extra["grid_complete"] = bool(complete)
